@@ -800,6 +800,13 @@ func c17enumerate(quick bool, stop func() bool, visit func(cs c17case)) {
 					m := top.Clone()
 					c17decorate(m, d)
 					visit(c17case{Model: m.Newick(), Kind: "cli"})
+					if d == 1 {
+						// labels and comments with characters that mean something to a formatter or a shell
+						for i, tp := range m.Tips() {
+							tp.Name = []string{"GC_50%", "f%20g", "a%sb", "x%d", "p|q", "é"}[i%6] + fmt.Sprint(i)
+						}
+						visit(c17case{Model: m.Newick(), Kind: "cli"})
+					}
 				}
 			}
 		})
